@@ -20,7 +20,7 @@ Unit(kind, k, r, lag, aux, auxkd, warm) ==
       kf |-> k[1], kg |-> k[2], ke |-> k[3], kr |-> k[4], flat |-> TRUE,
       cap |-> cap, smin |-> cap \div 8, slo |-> 3 * (cap \div 8), shi |-> 5 * (cap \div 8), smax |-> 7 * (cap \div 8),
       delta |-> W1 \div 16, ps |-> W1, ds |-> 2, lat |-> TRUE, assert |-> TRUE,
-      pb0 |-> IF warm THEN r[1] * W1 ELSE 0, haux |-> 0, split2 |-> 1, gssr |-> 0, gssk |-> 0]
+      pb0 |-> IF warm THEN r[1] * W1 ELSE 0, haux |-> 0, split2 |-> 1, gssr |-> 0, gssk |-> 0, lpub |-> 0, ekx |-> 1]
 RBase == <<256, 192, 128, 256>>
 ConvU(kf, kg, ke, lag, aux, auxkd) == Unit("conv", <<kf, kg, ke, 1>>, RBase, lag, aux, auxkd, FALSE)
 BelU(ke, kr, aux, auxkd) == Unit("bel", <<1, 1, ke, kr>>, RBase, 4, aux, auxkd, FALSE)
@@ -42,7 +42,7 @@ HybU(k, r, lag, aux, split2, warm) ==
       kf |-> k[1], kg |-> k[2], ke |-> k[3], kr |-> k[4], flat |-> TRUE,
       cap |-> cap, smin |-> cap \div 8, slo |-> 3 * (cap \div 8), shi |-> 5 * (cap \div 8), smax |-> 7 * (cap \div 8),
       delta |-> 2 * H1, ps |-> H1, ds |-> 2, lat |-> TRUE, assert |-> TRUE,
-      pb0 |-> IF warm THEN r[1] * kw ELSE 0, haux |-> 50000 * H1, split2 |-> split2, gssr |-> 0, gssk |-> 0]
+      pb0 |-> IF warm THEN r[1] * kw ELSE 0, haux |-> 50000 * H1, split2 |-> split2, gssr |-> 0, gssk |-> 0, lpub |-> 0, ekx |-> 1]
 RHyb == <<256, 192, 128, 128>>
 
 K == {1, 2, 4}
